@@ -81,6 +81,7 @@ func (c *FuncCtx) traceN(st *State, f string) string {
 	}
 	name := "T_" + traceIdent(f) + "_n"
 	c.declOnce(name, "Int")
+	c.noteKeySort(k, "Int")
 	st.heap[k] = name
 	st.assume(app("<=", "0", name))
 	return name
@@ -97,6 +98,7 @@ func (c *FuncCtx) traceArr(st *State, f string, i int) string {
 	}
 	name := fmt.Sprintf("T_%s_a%d", traceIdent(f), i)
 	c.declOnce(name, fmt.Sprintf("(Array Int %s)", c.eng.sortOf(sig[i])))
+	c.noteKeySort(k, fmt.Sprintf("(Array Int %s)", c.eng.sortOf(sig[i])))
 	st.heap[k] = name
 	return name
 }
@@ -108,6 +110,7 @@ func (c *FuncCtx) traceClock(st *State) string {
 		return t
 	}
 	c.declOnce("T_clock", "Int")
+	c.noteKeySort(k, "Int")
 	st.heap[k] = "T_clock"
 	return "T_clock"
 }
@@ -119,6 +122,7 @@ func (c *FuncCtx) traceTime(st *State, f string) string {
 	}
 	name := "T_" + traceIdent(f) + "_time"
 	c.declOnce(name, "(Array Int Int)")
+	c.noteKeySort(k, "(Array Int Int)")
 	st.heap[k] = name
 	return name
 }
@@ -131,6 +135,7 @@ func (c *FuncCtx) traceRes(st *State, f string, i int, sort string) string {
 	}
 	name := fmt.Sprintf("T_%s_r%d", traceIdent(f), i)
 	c.declOnce(name, fmt.Sprintf("(Array Int %s)", sort))
+	c.noteKeySort(k, fmt.Sprintf("(Array Int %s)", sort))
 	st.heap[k] = name
 	return name
 }
